@@ -50,16 +50,24 @@ def layer_obj(j):
 
 
 class Tokens:
-    """floats <-> integer tokens (0 <-> the value 0)"""
+    """floats <-> integer tokens (0 <-> the value 0).  token // 1024 is the float's *hash class*: two floats get the same class exactly
+    when CPython hashes them alike (hash(-1.0) == hash(-2.0), x vs x + k*(2**61 - 1)) - Model/Evqe.lean `valHash` relies on it to mirror
+    EVQEIndividual.__eq__ (hash equality)."""
 
     def __init__(self):
         self.t = {0.0: 0}
         self.back = {0: 0.0}
+        self.classes = {hash(0.0): 0}
+        self.in_class = {0: 1}
 
     def tok(self, v):
         v = float(v)
         if v not in self.t:
-            k = len(self.t)
+            c = self.classes.setdefault(hash(v), len(self.classes))
+            i = self.in_class.get(c, 0)
+            assert i < 1024, "more than 1024 hash-equal floats in one run"
+            self.in_class[c] = i + 1
+            k = c * 1024 + i
             self.t[v] = k
             self.back[k] = v
         return self.t[v]
